@@ -11,6 +11,7 @@ import GoHeader.Oracle.C11
 import GoHeader.Oracle.C10
 import GoHeader.Oracle.C15
 import GoHeader.Oracle.C16
+import GoHeader.Oracle.C09
 open GoHeader GoHeader.Oracle
 
 def evalLine (line : String) : Option Verdict :=
@@ -24,6 +25,7 @@ def evalLine (line : String) : Option Verdict :=
     | "C10" :: rest => some (evalC10 rest outs)
     | "C15" :: rest => some (evalC15 rest outs)
     | "C16" :: rest => some (evalC16 rest outs)
+    | "C09" :: rest => some (evalC09 rest outs)
     | _ => some (.bad "unknown property tag")
 
 structure DAcc where
